@@ -260,6 +260,9 @@ func (v *vm) execSketch() bool {
 		}
 		v.ok()
 
+	case "kchtrace":
+		v.kchtrace()
+
 	case "kenc":
 		v.needRange(4, 5)
 		k := v.getK(2)
